@@ -10,6 +10,7 @@ type Subst struct {
 	Val    bool
 	Var    *FVar // optional: a free field symbol replaced by the constant VarVal
 	VarVal *Poly
+	IBind  map[*IAtom]*Term // optional: integer atoms replaced by terms (bindings of symbolic integers)
 	tm     map[*Term]*Term
 	pm     map[*Poly]*Poly
 	am     map[*PAtom]*Term
@@ -75,6 +76,11 @@ func (s *Subst) iatom(a *IAtom) *Term {
 		return r
 	}
 	var r *Term
+	if b, ok := s.IBind[a]; ok && b.SingleAtom() != a {
+		r = s.Term(b)
+		s.im[a] = r
+		return r
+	}
 	switch a.Kind {
 	case ICanon:
 		r = CanonOf(a.F, s.Poly(a.V))
